@@ -111,8 +111,12 @@ def list_join_clause(segment: BaseSegment) -> list[BaseSegment]:
                 else:
                     # no join at top level, and there is select statement in from_clause
                     return []
-        # otherwise, recursively find join_clause
-        return list(segment.recursive_crawl("join_clause"))
+        # otherwise, recursively find join_clause, without going into subquery which has its own scope
+        return list(
+            segment.recursive_crawl(
+                "join_clause", no_recursive_seg_type="select_statement"
+            )
+        )
     elif segment.type == "from_expression":
         # one item of a comma separated FROM list: its own joins, parenthesised join groups included, not subquery's
         return list(
